@@ -9,6 +9,46 @@ def gen(rng, cfg, k):
     dom = rng.choice([cfg.n + 2, 2 * cfg.n + 3, 12])
     return S.gen_history(rng, cfg, 45, dom=dom, bulk_max=cfg.n + 3)
 
+def gen_states(rng, cfg, k):
+    """directed: bring two or three sets into chosen states (inline / large / large but drained to <= N elements) with chosen overlaps,
+    then compare, merge, transfer, copy, move and swap across the states"""
+    N = cfg.n
+    dom = 2 * N + 4
+    lines = []
+    content = []
+    for c in range(cfg.pool):
+        st = rng.choice(['inline', 'large', 'drained', 'drained'])
+        ks = rng.sample(range(dom), rng.randrange(0, N + 1) if st != 'large' else rng.randrange(N + 1, min(dom, 2 * N + 2) + 1))
+        if c > 0 and rng.random() < 0.6:
+            # same content as, a subset of, or overlapping with the previous set
+            prev = content[c - 1]
+            mode = rng.choice(['same', 'subset', 'overlap'])
+            if mode == 'same' and len(prev) <= N: ks = list(prev)
+            elif mode == 'subset' and prev: ks = rng.sample(prev, rng.randrange(0, min(len(prev), N) + 1))
+            elif prev: ks = list(set(ks[: max(1, len(ks) // 2)] + rng.sample(prev, min(len(prev), 2))))[: N if st != 'large' else None]
+        if st == 'drained':
+            extra = [x for x in range(dom) if x not in ks][: N + 1 - len(ks) + rng.randrange(0, 2)] if len(ks) <= N else []
+            order = ks + extra
+            rng.shuffle(order)
+            for x in order: lines.append(f'ins {c} {x}')
+            for x in extra: lines.append(f'era {c} {x}')
+        else:
+            order = list(ks); rng.shuffle(order)
+            for x in order: lines.append(f'ins {c} {x}')
+        content.append(list(ks))
+    P = cfg.pool
+    for _ in range(12):
+        a = rng.randrange(P); b = rng.randrange(P)
+        op = rng.choice(['cmp', 'cmp', 'cmp', 'mrg', 'mrg', 'xfer', 'cpy', 'mov', 'swp', 'iter', 'eloop', 'ins', 'era', 'erap', 'find'])
+        if op in ('cmp', 'mrg', 'cpy', 'mov', 'swp'): lines.append(f'{op} {a} {b}')
+        elif op == 'xfer': lines.append(f'xfer {a} {b} {rng.randrange(dom)}')
+        elif op == 'iter': lines.append(f'iter {a}')
+        elif op == 'eloop': lines.append(f'eloop {a} {rng.randrange(1, 4)}')
+        elif op == 'erap': lines.append(f'erap {a} {rng.randrange(0, 64)}')
+        else: lines.append(f'{op} {a} {rng.randrange(dom)}')
+    lines.append('new')
+    return lines
+
 def run(ctx):
     ok = ctx.lean(['AmcVerif.Props.C04'])
     n = 60 if ctx.tier == 'quick' else 400
@@ -28,6 +68,8 @@ def run(ctx):
                     return True
         return False
     SC.run(ctx, scommon.small_cfgs(ctx.tier), gen, n, use_cmps=False, nontrivial=nontrivial, label='C04 history')
+    SC.run(ctx, scommon.small_cfgs(ctx.tier), gen_states, n, use_cmps=False,
+           nontrivial=lambda cfg, lines, obs: any(l.startswith('cmp') or l.startswith('mrg') for l in lines), label='C04 directed states')
     ctx.assume('merge between SmallSets of different N / comparator / backing set type is not exercised by the harness yet')
 
 def replay(ctx, path):
